@@ -207,6 +207,51 @@ def call_sites_unit(ctx):
     return "ok"
 
 
+@unit("tracebacks.error-construction-is-total", props=["C06", "C07", "C04", "C10", "C15"],
+      functions=[(ER, "NodeError.__init__"), (ER, "CallError.__init__"), ("graph.py", "Call.__repr__"), ("graph.py", "Literal.__repr__"), ("graph.py", "Node.__repr__"),
+                 ("_util/__init__.py", "repr_helper")],
+      assumptions=["the real error and node classes of the working tree are run natively on nodes that hold awkward USER objects; reprlib.Repr.repr (what the repr helper "
+                   "uses at the pinned commit) answers with a generic text when an object's own __repr__ raises"],
+      min_obligations=4, kind="concrete-parametric")
+def error_total_unit(ctx):
+    """The premise behind 'nothing escapes process_node' (C06, C07: a worker that dies while reporting a failure records nothing - run returns normally with calls
+    missing, or hangs) and 'every running is followed by completed or failed' (C15): building the NodeError / CallError for a failed node never fails itself,
+    whatever the user put into the node - a callable, scope values or a literal value whose __repr__ RAISES, a callable without __qualname__ (functools.partial,
+    a callable object), scope values that are not strings, a call created without a stack frame."""
+    import functools
+
+    graph, util, errors, _graph = _real()
+
+    class Bad:
+        """a user object whose __repr__ and __str__ raise, falsy, callable"""
+
+        def __repr__(self):
+            raise RuntimeError("the user's __repr__ raises")
+
+        __str__ = __repr__
+
+        def __len__(self):
+            return 0
+
+        def __call__(self, *a, **k):
+            return None
+
+    which = ctx.choose(6, "node")
+    bad = Bad()
+    node = [lambda: graph.Call(bad), lambda: graph.Call(functools.partial(bad, 1)), lambda: graph.Call(len, scope=(bad, 2024, ("t", 1))),
+            lambda: graph.Literal(bad), lambda: graph.Literal([bad], scope=(bad,)), lambda: graph.Call(bad, scope=(bad,), stack_frame=None)][which]()
+    kind, val = _catch(ctx, lambda: errors.NodeError(node))
+    ctx.check("NodeError(node):never-raises-whatever-the-user-put-into-the-node", bool(kind == "ret" and isinstance(val, errors.NodeError) and val.node is node), info=repr(val) if kind != "ret" else "")
+    if isinstance(node, graph.Call):
+        kind, val = _catch(ctx, lambda: errors.CallError(node))
+        ctx.check("CallError(call):never-raises-whatever-the-user-put-into-the-call", bool(kind == "ret" and isinstance(val, errors.CallError) and val.call is node),
+                  info=repr(val) if kind != "ret" else "")
+        exc = ValueError("x")
+        kind, val = _catch(ctx, lambda: errors.create_chained_call_error(node, exc))
+        ctx.check("create_chained_call_error:never-raises;cause-is-the-very-exception", bool(kind == "ret" and val.__cause__ is exc and val.call is node))
+    return "ok"
+
+
 @unit("tracebacks.CallError", props=["C19", "C06"], functions=[(ER, "CallError.__init__"), (ER, "create_chained_call_error"), (ER, "NodeError.__init__")],
       assumptions=["fully_qualified_name / render_symbolic_traceback as in their own contracts"], min_obligations=3)
 def call_error_unit(ctx):
